@@ -110,7 +110,7 @@ fn run_chain(acts: &'static [Act], mut cur: Option<Mv>, cx: &mut Ctx) -> Option<
         }
         let fail = cx.fl(a.id) & FAIL != 0;
         match a.op {
-            Op::Src | Op::Or => {
+            Op::Src | Op::SrcAwait | Op::Or => {
                 // src/alt: evaluated as an expression (Eval is its action point)
                 let made = if a.cap != 0 {
                     // hoisted: was evaluated in the capture prefix
@@ -124,7 +124,7 @@ fn run_chain(acts: &'static [Act], mut cur: Option<Mv>, cx: &mut Ctx) -> Option<
                     Mv { ok: !fail, h: vec![a.id] }
                 };
                 cur = Some(match (a.op, cur.take()) {
-                    (Op::Src, _) => made,
+                    (Op::Src, _) | (Op::SrcAwait, _) => made,
                     (_, Some(c)) => {
                         if c.ok {
                             c
@@ -195,7 +195,7 @@ fn run_chain(acts: &'static [Act], mut cur: Option<Mv>, cx: &mut Ctx) -> Option<
                 }
                 cur = Some(c);
             }
-            Op::Then => {
+            Op::Then | Op::ThenW => {
                 cx.eval(a);
                 let c = cur.take().unwrap();
                 if !cx.call(a.id, c.enc()) {
@@ -489,7 +489,7 @@ pub fn run(prog: &Prog, kind: Kind, hk: Option<HK>, plan: &Plan) -> Exp {
 /// Is `id` a probe whose action point is its own evaluation (src / alt)?
 fn is_expr_probe(prog: &Prog, id: u16) -> bool {
     fn walk(acts: &[Act], id: u16) -> bool {
-        acts.iter().any(|a| (a.id == id && matches!(a.op, Op::Src | Op::Or)) || walk(a.inner, id))
+        acts.iter().any(|a| (a.id == id && matches!(a.op, Op::Src | Op::SrcAwait | Op::Or)) || walk(a.inner, id))
     }
     prog.branches.iter().any(|b| b.steps.iter().any(|s| walk(s, id)))
 }
